@@ -59,7 +59,7 @@ def parse_lazy(txt):
 def main(tier, seed, pid):
     res = Result(pid, tier, seed)
     try:
-        translate.run_all()
+        translate.run_all(pid)
     except translate.AnchorLost as e:
         res.violation("translator lost its anchor: %s" % e, {"theorem_or_correspondence": "tools/translate.py"}, found_input=False)
     pr = coq_prove(pid)
